@@ -405,17 +405,29 @@ class Session:
                 for mf in env.models.MediaFile.all():
                     if mf.representation is not None:
                         dv.set_representation_info(mf.representation)
-            for it in range(6):
-                out['iterations'] = it + 1
+            # the loop of upstream's own driver (validator/basic.py run()): keep validating and refreshing
+            # until the requested duration has been covered; errors are read at the end of the session
+            max_loops = 100 if case['mode'] == 'live' else 2
+            it = 0
+            out['lines_history'] = [list(dv.get_manifest_lines())]
+            while not dv.finished() and max_loops > 0:
+                it += 1
+                out['iterations'] = it
                 await dv.validate()
-                if dv.has_errors() or dv.finished():
-                    break
-                await dv.sleep()
-                await dv.refresh()
-                with env.app.app_context():
-                    for mf in env.models.MediaFile.all():
-                        if mf.representation is not None:
-                            dv.set_representation_info(mf.representation)
+                # fetching and checking a window of segments takes real time; the virtual clock only moves
+                # when the validator sleeps, and without a minimumUpdatePeriod it does not sleep at all
+                env.clock.advance(1.0)
+                if not dv.finished():
+                    max_loops -= 1
+                    await dv.sleep()
+                    await dv.refresh()
+                    if len(out['lines_history']) < 40:
+                        out['lines_history'].append(list(dv.get_manifest_lines()))
+                    with env.app.app_context():
+                        for mf in env.models.MediaFile.all():
+                            if mf.representation is not None:
+                                dv.set_representation_info(mf.representation)
+            out['finished'] = dv.finished()
 
         def runner():
             asyncio.run(go())
@@ -565,6 +577,15 @@ def run_shard(ctx: ShardCtx) -> ShardResult:
                 if case['params'].get('timeline') != '1' or case['mode'] == 'odvod':
                     pool = [f for f in pool if not f.startswith('timeline-')]
                 fault = rng.choice(pool)
+            if not replayed and fault == 'ast-changes-on-refresh':
+                # several refreshes after the corrupted one: the error must survive to the end of the session
+                case['params']['depth'] = '20'
+                case['params'].setdefault('mup', '4')
+                case['duration'] = rng.choice([24, 40])
+            if not replayed and not corrupted and case['mode'] == 'live' and rng.random() < 0.15:
+                # a pristine session that needs more than the window holds at one time
+                case['params']['depth'] = '20'
+                case['duration'] = rng.choice([32, 45])
             if not replayed and corrupted and rng.random() < 0.12:
                 # a patch=1 session that is long enough to refresh through the patch endpoint
                 case = {'stream': 'bbb', 'manifest': 'hand_made.mpd', 'mode': 'live',
@@ -609,6 +630,12 @@ def run_shard(ctx: ShardCtx) -> ShardResult:
                               traceback=out.get('traceback'))
                 continue
             errors = out['errors']
+            if not corrupted and not errors and out.get('finished') is False:
+                # "the validator terminates": upstream's driver loops until finished(); a pristine stream
+                # on which that never becomes true keeps it going until its loop budget is used up
+                res.violation('validator-does-not-finish-on-pristine-stream',
+                              f'{case["manifest"]} {case["mode"]} {case["params"]} duration={case.get("duration", 8)}: '
+                              f'not finished after {out["iterations"]} validate/refresh rounds, no error reported', rp)
             if not corrupted:
                 res.count('sessions.clean')
                 res.keys.add(f'clean|{sig}')
@@ -645,13 +672,17 @@ def run_shard(ctx: ShardCtx) -> ShardResult:
             if fault in MANIFEST_FAULTS or fault in PATCH_FAULTS:
                 located = True       # any error of the manifest document counts for MPD-level faults
             else:
-                rng_lines = owner_lines(out['lines'], applied['url'])
+                # error locations are line numbers of the manifest version that was current when the error
+                # was raised: compare with the owner's line range in every version the session has seen
+                ranges = [owner_lines(lines, applied['url']) for lines in (out.get('lines_history') or [out['lines']])]
+                rng_lines = next((x for x in ranges if x), None)
                 for e in errors:
                     if applied['url'] in e.msg or applied['url'].split('?')[0] in e.msg:
                         located = True
-                    if rng_lines and e.location and e.location.start is not None:
-                        if not (e.location.end < rng_lines[0] or e.location.start > rng_lines[1]):
-                            located = True
+                    for rl in ranges:
+                        if rl and e.location and e.location.start is not None:
+                            if not (e.location.end < rl[0] or e.location.start > rl[1]):
+                                located = True
                 if rng_lines is None:
                     located = True      # owner cannot be determined from the URL: do not judge the location
             if not located:
